@@ -12,15 +12,13 @@ CONTROLS = "m07a m07c m08d m12e m12f m17c m17d m18a m18c m19c n01 n02 n04 n09 n1
 
 NOT_BUILT = {
  'C01': "the (B) cross-check with two callers + reader + closer; `mcp.call`'s mapping of closed connections is asserted in the C04 harness (`C01.closed-connection-identified`).",
- 'C02': "the SSE transport's POST validation (the streamable `servePOST` pre-validation is built: `zzC02Prevalidation`).",
  'C03': "nothing essential: H2 is built as `zzConnStillRunning` (encoding B), H3 as the (A) queue-step harness, H4 as `zzC03Accepted`.",
- 'C05': "H3 (global deadlock-freedom search, lock-order graph); `ClientSession.Close` (symmetric to the server side) is not instantiated.",
+ 'C05': "H3 (global deadlock-freedom search, lock-order graph).",
  'C07': "nothing of the plan; not covered: races inside `Server.Connect` (seeded C07c, §8).",
  'C08': "built as an exhaustive bounded exploration of one logical stream (all splits, cursors, generations) rather than as an (A) invariant step; concurrent writers racing with `acquireStream` are outside.",
  'C10': "the heap-ownership closure argument for cross-session isolation (cross-session access control is C11).",
  'C15': "URL tokens were replaced by concrete URL alphabets parsed by the real `net/url` (§2.3).",
  'C18': "the `subscriptions/listen` handler's own map updates (its effect is a harness input).",
- 'C19': "the protocol *result* types' MarshalJSON/UnmarshalJSON pairs (struct embedding); H4 is built for the seven content kinds only.",
  'C20': "the pure bit-vector cross-run.",
 }
 
